@@ -24,3 +24,12 @@ Definition smoothing (tau dt : R) : R := exp (- dt / tau).
 Definition follower (o s e0 : R) (n : nat) : R := o + s ^ n * (e0 - o).
 (** which time constant applies: attack while the detected overshoot is not below the follower *)
 Definition follower_speed (att rel o e0 : R) : R := if Rlt_dec o e0 then rel else att.
+
+(** the follower through a piecewise-constant history: a list of segments (overshoot o held for n frames),
+    the composition of the per-segment closed forms, each starting where the previous one ended with
+    the speed that applies there *)
+Fixpoint follower_segs (att rel e0 : R) (segs : list (R * nat)) : R :=
+  match segs with
+  | nil => e0
+  | cons (o, n) rest => follower_segs att rel (follower o (follower_speed att rel o e0) e0 n) rest
+  end.
